@@ -6,6 +6,47 @@ import os
 ROOT = os.path.dirname(os.path.dirname(os.path.abspath(__file__)))
 
 CHECKS = {
+    "C17": dict(
+        cat="fault_enumeration",
+        text="In the virtual-time simulation: (A) the HID device vanishes (read error / EOF / write error) at an I/O instant of "
+             "a fault-free base run incl. the handshake, returns never / before / after the reconnect limit, optionally a "
+             "second time, with reconnect_limit None/0/1/3, exceptions on/off and 0-3 callers; (B) a caller is cancelled at "
+             "each of its first 16 (thorough 40) task steps and 300 further sends follow (60 on the serial drivers); (C) the "
+             "serial gateway stops confirming, stops answering, drops the second confirmation or goes silent, then recovers. "
+             "Oracle: every send returns its own correct answer or CommunicationError (never with exceptions off), status "
+             "events 'disconnected' / attempts at exact multiples of the interval / 'failed' exactly when the limit is used "
+             "up / 'connected' + repeated handshake after return, transaction lock, semaphore and in-flight table free, a "
+             "fresh send correct, silence ends in an exception or 'no answer' within the documented timeouts in virtual time.",
+        note="Loss is modelled as the kernel shows it (os.read raising/returning b'', os.write raising, os.open failing). One "
+             "known finding (LUBA after a cancellation) is listed in known_findings.json.",
+        tech="runtime monitoring with fault enumeration: fault instants taken from the I/O log of a base run; virtual clock",
+        ref="DESIGN.md §4 C17"),
+    "C18": dict(
+        cat="exploration",
+        text="Every command class of the standard's tables (one argument set each; thorough: all 2^16 16-bit frames and 2000 "
+             "24-bit frames per driver) is sent through the real Tridonic, hasseb, LUBA and SCI drivers in the simulation and "
+             "through DaliServer / the ATX hat / legacy Tridonic / legacy hasseb / UniPi construct(); the bytes captured at "
+             "os.write / transport.write / socket.send are compared with independent encoders (field positions, mode code, "
+             "send-twice flag, checksum, padding, sequence numbers in range without immediate repetition over 700+ sends); 12 "
+             "unsupported frame lengths per driver must be refused with nothing written; legacy extract() code tables.",
+        note="Vendor documents are not available offline; two cells (SCI request alignment, LUBA priority policy) are pinned "
+             "to the reviewed library behaviour. One known finding (legacy Tridonic send-twice bit) is listed.",
+        tech="runtime monitoring: I/O-boundary capture compared with independent wire-format encoders",
+        ref="DESIGN.md §4 C18"),
+    "C20": dict(
+        cat="exploration",
+        text="Histories of 1-8 foreign bus transactions of 22 kinds (plain, query answered / silent by report / silent by "
+             "timeout / garbled / interrupted, send-twice complete / single / different / answered, enable-device-type + "
+             "matching / other / interrupted / delayed extended command, 24-bit commands and events with and without map "
+             "entry, unknown frames, stray backward frames) with every gap 50 ms or 500 ms around the watcher's 200 ms window, "
+             "plus own sends, are injected as gateway reports into the real Tridonic _handle_read/_bus_watch path and into the "
+             "LUBA/SCI receive path; 0-3 subscribers join/leave in quiet gaps. Oracle: an independent transaction parser "
+             "(models/watch_ref.py): each forward frame once, in order, decoded under the device type of the immediately "
+             "preceding frame only, paired with its answer / no answer, failed flag for broken repeats; per-subscriber logs "
+             "equal the reports made while subscribed. 500 histories quick, 20k thorough.",
+        note="Trusts models/watch_ref.py; gaps are never close to the 200 ms boundary.",
+        tech="runtime monitoring: virtual-time injection of report histories + reference transaction parser over the same log",
+        ref="DESIGN.md §4 C20"),
     "C15": dict(
         cat="exploration",
         text="The real hid.tridonic, hid.hasseb, DriverLubaRs232 and DriverSCIRS232 objects run inside a virtual-time asyncio "
